@@ -326,6 +326,17 @@ pub fn check_fault(c: &FaultCase, obs: &mut Obs) -> Verdict {
                     return fail("failed run printed no error", &o);
                 }
             }
+            // the converter prints its warnings to standard error: an unwritable standard error
+            // must not turn a conversion into a panic either
+            let export = r#"{"BrokerageTransactions":[{"Date":"03/02/2020","Action":"Reinvest Shares","Symbol":"ACME","Description":"x","Quantity":"1","Price":"","Fees & Comm":"","Amount":"$1.00"},{"Date":"03/03/2020","Action":"Buy","Symbol":"ACME","Description":"x","Quantity":"2","Price":"$3.00","Fees & Comm":"","Amount":"-$6.00"}]}"#;
+            let ex = sc.write("export.json", export).to_string_lossy().to_string();
+            let o = proc::run_cli_stderr_unwritable(&sc, &["convert", "schwab", &ex]);
+            if let Err(e) = no_crash(&o) {
+                return fail(&format!("convert with a warning and an unwritable standard error: {e}"), &o);
+            }
+            if o.ok() && !o.stdout_s().contains("BUY ACME 2") {
+                return fail("convert reports success but the converted ledger is not on standard output", &o);
+            }
             obs.nontrivial = true;
             Verdict::Pass
         }
